@@ -27,8 +27,9 @@ def byte_parser_worker(args):
                     b = model_bytes(m, bs)
                     out['panics'].append(dict(kind=kind, stage='parse', msg=r.result[1], hex=b.hex(), text=b.decode('utf-8', 'replace')))
         out.update(stmts=M.stats['stmts'], queries=M.nq, solver_s=round(M.qtime, 1))
-    except mirx.Unsupported as e:
-        out['error'] = 'unsupported: ' + str(e)
+    except Exception as e:
+        import traceback
+        out['error'] = ('unsupported: ' + str(e)) if isinstance(e, mirx.Unsupported) else ('internal error in the check machinery: ' + repr(e) + ' | ' + traceback.format_exc()[-700:])
     out['wall'] = round(time.time() - t0, 1)
     return out
 
@@ -65,8 +66,9 @@ def token_worker(args):
                 c, m = sat_model(r['pc'])
                 samples.append(model_bytes(m, bs).decode('utf-8', 'replace'))
         out.update(stmts=M.stats['stmts'], queries=M.nq, solver_s=round(M.qtime, 1), samples=samples)
-    except mirx.Unsupported as e:
-        out['error'] = 'unsupported: ' + str(e)
+    except Exception as e:
+        import traceback
+        out['error'] = ('unsupported: ' + str(e)) if isinstance(e, mirx.Unsupported) else ('internal error in the check machinery: ' + repr(e) + ' | ' + traceback.format_exc()[-700:])
     out['wall'] = round(time.time() - t0, 1)
     return out
 
